@@ -102,7 +102,7 @@ def _extreme(rng, bits):
 
 CPS = [0x00, 0x41, 0x7f, 0x80, 0x7ff, 0x800, 0xd7ff, 0xe000, 0xfffd, 0xffff, 0x10000, 0x10ffff, 0x20ac, 0xe9,
        0x20, 0x0a, 0x0d, 0x09, 0xa0, 0x85, 0x3000, 0x2028, 0xfeff]
-WS = [b' ', b'\n', b'\r\n', b'\t', b'\xc2\xa0', b'\xe3\x80\x80', b'  ', b'\x00']
+WS = [b' ', b'\n', b'\r\n', b'\t', b'\xc2\xa0', b'\xe3\x80\x80', b'  ', b'\x00', b'\xef\xbb\xbf', b'\xef\xbb\xbf', b'\xef\xbb\xbf\xef\xbb\xbf']
 
 
 def rutf8(rng, nbytes):
@@ -215,6 +215,17 @@ def rand_ctrl(rng, navps=None, first_mt=True, small=False, maxpay=1017):
         avps.append(rand_avp(rng, 'MessageType') if first_mt else rand_avp(rng, small=small, maxpay=maxpay))
     for _ in range(navps - 1):
         avps.append(rand_avp(rng, small=small or rng.random() < 0.6, maxpay=maxpay))
+    if navps >= 1 and rng.random() < 0.12:
+        # AVPs that belong together carry related values (equal speeds, equal ids, min <= max ...)
+        v = extreme(rng, 32)
+        w = rng.choice([v, v, (v + 1) & 0xffffffff, extreme(rng, 32)])
+        rel = rng.choice([('TxConnectSpeed(%d)' % v, 'RxConnectSpeed(%d)' % w), ('MinimumBps(%d)' % v, 'MaximumBps(%d)' % w),
+                          ('AssignedTunnelId(%d)' % (v & 0xffff), 'AssignedSessionId(%d)' % (w & 0xffff)),
+                          ('CallSerialNumber(%d)' % v, 'TxConnectSpeed(%d)' % w)])
+        if first_mt:
+            avps[0] = 'MessageType(%s)' % rng.choice(['IncomingCallConnected', 'OutgoingCallConnected', 'IncomingCallRequest', 'OutgoingCallRequest'])
+        pos = rng.randrange(1, len(avps) + 1)
+        avps[pos:pos] = list(rel) if rng.random() < 0.7 else list(rel)[::-1]
     return ctrl_text(extreme(rng, 16), extreme(rng, 16), extreme(rng, 16), extreme(rng, 16), extreme(rng, 16), avps)
 
 
